@@ -343,7 +343,9 @@ def run(ctx):
     tasks = [dict(tier=ctx.tier, range=(i, min(n, i + step))) for i in range(0, n, step)]
     ctx.pmap("mzcheck.checks.c09", "pair_task", tasks)
     ctx.pmap("mzcheck.checks.c09", "other_task", [dict(tier=ctx.tier, what="sets"), dict(tier=ctx.tier, what="endpoints")])
-    ctx.coverage.update(family_size=n, ordered_pairs=2 * n * n)
+    ctx.pmap("mzcheck.checks.c09", "live_history_task", [dict(si=i, depth=3 if ctx.quick else 4) for i in range(len(_hist_specs()))])
+    ctx.coverage.update(family_size=n, ordered_pairs=2 * n * n,
+                        live_histories=dict(ops=HIST_OPS, depth=3 if ctx.quick else 4, mazes=len(_hist_specs()), histories=ctx.res.counters.get("live_histories", 0)))
     ctx.rule = ("all ordered pairs over a family of mazes (3 kinds x shapes x one-bit / one-endpoint / one-solution-cell variants x metadata variants), "
                 "each against itself, an equal copy and every other member; the -2..size+1 coordinate box for endpoints; "
                 "distinct = distinct (fingerprint, fingerprint) pairs of different objects")
@@ -351,6 +353,9 @@ def run(ctx):
 
 
 def replay(d, res):
+    if d["kind"] == "live":
+        run_live_history(d["si"], list(d["seq"]), res, only_last=True)
+        return
     if d["kind"] == "build":
         buildable_family("thorough", res)
         return
@@ -360,3 +365,85 @@ def replay(d, res):
         replay_endpoint(d, res)
     elif d["kind"] == "sets" or d["kind"] == "datasets":
         sets_and_datasets("quick", res)
+
+
+# ------------------------------------------------------------------ histories on one live maze object
+# A maze holds mutable arrays. Equality and hash speak about the structure it has NOW: every sequence (up to a depth) of observations
+# (hash, == against a fresh maze of the same current structure, membership in a set built now) and in-place changes (flip one
+# connection bit and back, move the end of a targeted maze and back) on ONE live object is compared with a freshly built maze.
+HIST_OPS = ["hash", "eq_fresh", "ne_other", "in_set", "flip_bit0", "flip_bit_last", "move_end", "move_end_back"]
+
+
+def _hist_specs():
+    t33 = R.trees(3, 3)[40]
+    t23 = R.trees(2, 3)[5]
+    return [("L", 3, 3, t33, None, None, None, 0), ("T", 3, 3, t33, (0, 0), (2, 2), None, 0), ("L", 2, 3, t23, None, None, None, 0),
+            ("S", 3, 3, t33, None, None, tuple(R.all_shortest_paths(R.adjacency(R.graph_from_bits(3, 3, t33)), (0, 0), (2, 1))[0]), 0)]
+
+
+def run_live_history(si, seq, res, only_last=False):
+    spec = list(_hist_specs()[si])
+    kind, r, c = spec[0], spec[1], spec[2]
+    m = build(tuple(spec))
+    E = len(R.lattice_edges(r, c))
+    for k, op in enumerate(seq):
+        cur = tuple(spec)
+        if op in ("flip_bit0", "flip_bit_last"):
+            d, i, j = R.lattice_edges(r, c)[0 if op == "flip_bit0" else E - 1]
+            m.connection_list[d, i, j] = not m.connection_list[d, i, j]
+            spec[3] ^= 1 << (0 if op == "flip_bit0" else E - 1)
+            continue
+        if op in ("move_end", "move_end_back"):
+            if kind != "T":
+                continue
+            new = (1, 1) if op == "move_end" else (2, 2)
+            m.end_pos[:] = new
+            spec[5] = new
+            continue
+        if only_last and k != len(seq) - 1:
+            try:
+                hash(m)
+            except Exception:  # noqa: BLE001
+                pass
+            continue
+        res.ev()
+        fresh = build(cur)
+        changed = [o for o in seq[:k] if o.startswith(("flip", "move"))]
+        observed_before = any(not o.startswith(("flip", "move")) for o in seq[:max([i for i, o in enumerate(seq[:k]) if o.startswith(("flip", "move"))], default=0)])
+        tag = f"{kind}|{op}|after_{'in_place_change' if changed else 'no_change'}|{'observed_before_change' if observed_before else 'not_observed_before'}"
+        rd = dict(kind="live", si=si, seq=list(seq[:k + 1]))
+        what = f"one live {kind} maze {r}x{c}, history {list(seq[:k + 1])} (structure now {cur})"
+        try:
+            if op == "hash":
+                ok = hash(m) == hash(fresh)
+                msg = "hash differs from the hash of a fresh maze with the same structure"
+            elif op == "eq_fresh":
+                ok = (m == fresh) is True and (fresh == m) is True and (m != fresh) is False
+                msg = "does not equal a fresh maze with the same structure"
+            elif op == "ne_other":
+                other = list(cur)
+                other[3] ^= 1 << (E // 2)
+                ok = (m == build(tuple(other))) is False
+                msg = "equals a maze that differs in one connection"
+            else:
+                ok = (m in {fresh}) and (fresh in {m}) and len({m, fresh}) == 1
+                msg = "set membership / de-duplication against a fresh maze with the same structure fails"
+        except Exception as e:  # noqa: BLE001
+            ok, msg = False, f"raised {type(e).__name__}: {str(e)[:120]}"
+        if not ok:
+            res.fail(f"C09|live_history|{tag}", f"{what}: {msg}", rd)
+            return False
+    return True
+
+
+def live_history_task(t, res):
+    n = 0
+    for d in range(1, t["depth"] + 1):
+        for seq in itertools.product(HIST_OPS, repeat=d):
+            if seq[-1].startswith(("flip", "move")) or not any(o.startswith(("flip", "move")) for o in seq):
+                continue
+            if run_live_history(t["si"], seq, res):
+                res.nontrivial(("live", t["si"], seq))
+            n += 1
+    res.count("live_histories", n)
+    res.sample(dict(layer="live maze history", spec=list(map(str, _hist_specs()[t["si"]])), example=["hash", "flip_bit0", "hash", "in_set"]), cap=1)
